@@ -17,7 +17,7 @@ var vOps1 = []string{
 	"2d6k(x)", "2d6q(x)", "2d6kh(x)", "2d6kl(x)", "2d6dh(x)", "2d6dl(x)", "2d6min(x)", "2d6max(x)",
 	"4a10m(x)", "4a10k(x)", "4a10q(x)", "4c8m(x)",
 	"`a{x}b`", "`{% x %}`", "[x, 2]kh", "[x, 1, 3]kl", "[x,2].kh(1)",
-	"ceil(x)", "floor(x)", "round(x)", "int(x)", "float(x)", "str(x)", "bool(x)", "repr(x)", "abs(x)", "typeId(x)", "dir(x)",
+	"ceil(x)", "floor(x)", "round(x)", "toInt(x)", "toFloat(x)", "toStr(x)", "toBool(x)", "repr(x)", "abs(x)", "typeId(x)", "dir(x)",
 	"load(x)", "loadRaw(x)", "x.sum()", "x.len()", "x.shuffle()", "x.rand()", "x.randSize(2)", "x.pop()", "x.shift()",
 	"x.push(1)", "x.keys()", "x.values()", "x.items()", "x.compute()", "x.kh()", "x.kl()", "x.kh(2)",
 	"x ? 1 : 2", "x ? 1, 0 ? 2, 3", "if x { 1 } else { 2 }", "i = 0; while x { i = i + 1; if i > 2 { break } }; i",
